@@ -255,6 +255,31 @@ CLAIMED = {
        "coalesced, fix-up xmlns attributes tolerated); generators. 19 open findings recorded in known_findings.json.",
   technique="Lean 4 proof over code-shaped models with translator-generated tables + model/implementation correspondence + model-free round trip",
   ref="4/C12"),
+ "C01": dict(
+  text="PARTIAL. Lean 4 theorems, unbounded over all sizes / operation sequences, about code-shaped models whose constants are regenerated "
+       "from the C++ text on every run: (a) growth arithmetic of XMLBuffer (incl. the full-handler branch), ElemStack/WFElemStack/NamespaceScope "
+       "stacks, prefix maps and child arrays ((XMLSize_t)(cap*1.25): strict growth exactly from 4, real precondition = generated initial "
+       "capacities 8/16/32, stuck case exhibited), RangeToken, ValueVectorOf, BaseRefVectorOf, DOMBuffer: grow_sufficient, every access of every "
+       "append sequence inside its block, stated no-wrap bounds; (b) the scanCharRef accumulator on 32-bit arithmetic: no intermediate wrap and "
+       "result = numeral iff <= 0x10FFFF for digit strings of any length (XMLScanner; DTDScanner conditional on its guard, negative witness "
+       "proved); (c) loadMsg + replaceTokens lengths: every errText call site x every shipped message x arbitrary replacement lengths stays "
+       "inside the buffer (tables checked by the kernel), replaceTokens overrun for other texts exhibited; (d) ReaderMgr ownership ledger: "
+       "every created reader / adopted entity deleted exactly once after reset+destroy for all op sequences, never popped below the base "
+       "reader, recursion refused; (e) entity-expansion work bound |doc| + L*maxLen with termination; DOM heap sub-allocation and the UCS-4 BOM "
+       "loop as conditional theorems with negative witnesses. Tied to the code by the translator, by direct correspondence on the exported "
+       "classes (XMLBuffer, ElemStack, ValueVectorOf, RangeToken, DOMBuffer, XMLString::replaceTokens, ReaderMgr with an allocation counter, "
+       "character references through real parses judged by XML 1.0) and by witness runs for every fact a conditional theorem depends on.",
+  note="NOT proved: memory safety of the parser as a whole. Use-after-free / overflow outside the modelled functions is only searched for: "
+       "ASan+UBSan harness over {SAXParser, SAX2XMLReader, XercesDOMParser, DOMLSParser} x {IG,WF,DG,SG} x {never,auto,always} x feature bits on "
+       "a seeded corpus (DTD, entities, namespaces, XML 1.1, schemas, encodings, XInclude) x mutations and size generators, with a CPU-time "
+       "watchdog linear in the input, a catch-all for foreign exceptions and an allocation counter; findings are classified by stable keys "
+       "(asan:<function>, ubsan:<file>:<line>, timeout:/resource:<family>, foreign:<type>, leak:<class>) and minimised. Compiler/libc-level UB, "
+       "allocator exhaustion, stack depth, IEEE-754 exactness of cap*1.25 (assumed below 2^50), sizes beyond the stated no-wrap bounds, ICU/iconv "
+       "message catalogues, file/network accessors and the XMLReader byte/char windows (C04) are not covered. continue-after-fatal is searched in a "
+       "separate stream and only listed. Trusted: Lean kernel + propext/Classical.choice/Quot.sound; translator patterns; harnesses, generators, "
+       "classifier; ASan/UBSan as detector.",
+  technique="Lean 4 proof over translator-generated constants and code-shaped models + direct correspondence + sanitizer search (model validation / failing-input search)",
+  ref="4/C01"),
 }
 
 def main():
